@@ -96,6 +96,8 @@ pub fn run_property(ctx: &Ctx) -> Option<Report> {
                 // the same isolation on the real UDP transport (foreign SYN -> exactly BadCluster)
                 r.push(srv::udp_smoke(ctx));
                 sim::run_foreign(ctx, &mut r);
+                // the real server loop: foreign SYNs arriving from dead members' addresses change nothing
+                srv::run_targets(ctx, &mut r);
                 r.rule.push_str("; sub-check foreign-syn-runs: cases = (own cluster id of 0..1,024 bytes, a related foreign id: own+suffix / prefix / case variant / one character changed, a run of 1..1,030 foreign SYNs): each is answered with a rejection and changes nothing; non-trivial = every case");
             }
             if mon == Monitor::C01 {
@@ -265,6 +267,7 @@ pub fn replay_property(ctx: &Ctx, sub: &str, case: &serde_json::Value) -> SubRes
         "C16" => match sub {
             "udp-loopback-smoke" => srv::udp_smoke(ctx),
             "foreign-syn-runs" => sim::replay_foreign(ctx, sub, case),
+            "server-round-targets" => srv::replay_targets(ctx, sub, case),
             _ => sim::replay(ctx, sub, case, Monitor::C16),
         },
         _ => {
